@@ -56,6 +56,22 @@ Theorem retained_bounded_json :
         map fst L = filter pred (map (jkid false) recs).
 Proof. exact retained_bounded_json_proof. Qed.
 
+(* JSON records that are the VALUES OF AN OBJECT keyed by id, or array elements, at any depth
+   below single-member objects: {"k": {"k1": ... {"recs": {"id0": r0, "id1": r1, ...}}}} resp.
+   ... {"recs": [r0, r1, ...]}; records of any shape (objects, arrays, scalars), any filter
+   outcomes (a rejected property is removed just like a delivered one). *)
+Theorem retained_bounded_json_nested :
+  forall (pm : list name -> bool) (pred : tree -> bool) (has_filter : bool),
+    (has_filter = false -> forall t, pred t = true) ->
+    forall key keys arr recs rel,
+      (forall k, k <= List.length (key :: keys) -> pm (firstn k (jkeys_chain (key :: keys))) = false) ->
+      Forall (jrecord pm (jkeys_chain (key :: keys)) (negb arr)) recs ->
+      exists L,
+        jrun pm pred has_filter false j_init rel (jdoc_events (JO [] [jnest key keys arr recs])) = (L, FEOF) /\
+        Forall (fun d => snd d = 1 + List.length (key :: keys) + tree_size (fst d)) L /\
+        map fst L = filter pred (map (jkid (negb arr)) recs).
+Proof. exact retained_bounded_json_nested_proof. Qed.
+
 (* ... and from any state between tokens, inside an object ([keyed] = true) or an array. *)
 Theorem retained_invariant_json :
   forall (pm : list name -> bool) (pred : tree -> bool) (has_filter : bool),
@@ -80,6 +96,15 @@ Theorem retained_bounded_flat :
                              else above + fl_size R rsize kids0 + rsize (fst d))
            (flat_run R rsize standalone above st recs).
 Proof. exact retained_bounded_flat_proof. Qed.
+
+(* Whether, and before which reader activity, the caller hands the previous node back through
+   Release makes no difference to what a record-at-a-time reader retains: the ingester releases
+   the node of every record the reader returned - also of one whose transform failed - and a
+   caller that never releases is covered by the reader's own release at the next Read. *)
+Theorem flat_run_rel_eq :
+  forall (R : Type) (rsize : R -> nat) (standalone : bool) (above : nat) recs rel st,
+    flat_run_rel R rsize standalone above st rel recs = flat_run R rsize standalone above st recs.
+Proof. exact flat_run_rel_eq_proof. Qed.
 
 (* ---- F7: with character data between the records the bound is false ------------------------------ *)
 Local Open Scope string_scope.
@@ -122,4 +147,32 @@ Example c17_json_nonvacuous :
   map snd (fst (jrun (pm_of tg) (pred_target tg) true false j_init [true; true; true]
                      (jdoc_events (JA [] [r1; r2; r1; r2; r1])))) = [6; 6; 6]
   /\ pm_of tg [] = false /\ pm_of tg [([], [])] = true.
+Proof. vm_compute. repeat split. Qed.
+
+(* attribute-only predicates with rejected records in between (the class of seeded change C17-1):
+   /lib/shelf/book[@lang='en'][@kind] over en/k, xx, en (no kind), en/q, xx, en/k *)
+Example c17_xml_attr_only_rejected :
+  let anc := [(bs "lib", FXml [] [], [(bs "id", FXml [] [], bs "1")]); (bs "shelf", FXml [] [], [])] in
+  let tg := mkTarget [(Child, NTName [] (bs "lib")); (Child, NTName [] (bs "shelf")); (Child, NTName [] (bs "book"))]
+                     [PAttrEq ([], bs "lang") (bs "en"); PHasAttr ([], bs "kind")] in
+  let book lang kind := XE (bs "book") (FXml [] [])
+                           ((bs "lang", FXml [] [], bs lang) :: match kind with "" => [] | _ => [(bs "kind", FXml [] [], bs kind)] end)
+                           [E17 "a" [XT (bs "1")]] in
+  let recs := [book "en" "k"; book "xx" ""; book "en" ""; book "en" "q"; book "xx" ""; book "en" "k"] in
+  map snd (fst (xrun (pm_of tg) (pred_target tg) true false x_init (repeat true 3) (xdoc_events (xnest anc recs))))
+  = repeat (1 + 4 + 7) 3
+  /\ forallb (fun x => pm_of tg (xanc_chain anc ++ [xname x])) recs = true.
+Proof. vm_compute. split; reflexivity. Qed.
+
+(* records as the values of an object keyed by id, two levels down, a third of them rejected
+   (the class of seeded change C17-3) *)
+Example c17_json_object_values_rejected :
+  let tg := mkTarget [(Child, NTName [] (bs "x")); (Child, NTName [] (bs "recs")); (Child, NTAny)]
+                     [PNot (PChildEq (NTName [] (bs "a")) (bs "skip"))] in
+  let rec id a := JO (bs id) [JS (bs "a") (JStrT (bs a)); JS (bs "b") (JNumT (bs "2"))] in
+  let recs := [rec "id0" "v"; rec "id1" "skip"; rec "id2" "v"; rec "id3" "skip"; rec "id4" "skip"; rec "id5" "w"] in
+  map snd (fst (jrun (pm_of tg) (pred_target tg) true false j_init (repeat true 3)
+                     (jdoc_events (JO [] [jnest (bs "x") [bs "recs"] false recs])))) = repeat (1 + 2 + 5) 3
+  /\ forallb (fun k => negb (pm_of tg (firstn k (jkeys_chain [bs "x"; bs "recs"])))) [0; 1; 2] = true
+  /\ forallb (fun j => jwf j && pm_of tg (jkeys_chain [bs "x"; bs "recs"] ++ [jname true j])) recs = true.
 Proof. vm_compute. repeat split. Qed.
